@@ -155,11 +155,16 @@ void op_cli(const Step& s) {
 	// ------------------------------------------------------------ oracles
 	if (cmd == 3) {
 		bool impl = ISEL[sel].implemented[rep];
-		if (!impl) { if (rc == 0 && (out == "1\n" || out == "0\n")) violation(P + ".unimplemented-selection", site, "the tool printed a verdict for a selection the encoding does not implement"); return; }
+		std::string verdict = out; while (!verdict.empty() && (verdict.back() == '\n' || verdict.back() == ' ' || verdict.back() == '\r')) verdict.pop_back();
+		if (!impl) {
+			// a selection the encoding does not implement must not produce a WRONG verdict; refusing (or answering correctly) is fine
+			if (rc == 0 && (verdict == "1" || verdict == "0")) { int w = fa ? mdl::incl(FAa, FAb) : mdl::incl(A, B); if (w >= 0 && verdict != (w ? "1" : "0")) violation(P + ".unimplemented-selection", site, "the tool printed the wrong verdict " + verdict + " for a selection the encoding does not implement\n  smaller: " + la + "\n  bigger : " + lb); }
+			return;
+		}
 		if (rc != 0) { violation(P + ".cli-failed", site, "the tool failed on a well-formed request (exit " + std::to_string(rc) + ")"); return; }
 		int want = fa ? mdl::incl(FAa, FAb) : mdl::incl(A, B); if (want < 0) { count(c_model_too_big); return; }
 		(want ? count(c_verdict_true) : count(c_verdict_false));
-		if (out != (want ? "1\n" : "0\n")) violation(P + ".verdict", site, "`vata " + std::string(REP[rep]) + " incl` printed '" + escape(out.substr(0, 40)) + "' but the reference says " + (want ? "included" : "not included") + "\n  smaller: " + la + "\n  bigger : " + lb);
+		if (verdict != (want ? "1" : "0")) violation(P + ".verdict", site, "`vata " + std::string(REP[rep]) + " incl` printed '" + escape(out.substr(0, 40)) + "' but the reference says " + (want ? "included" : "not included") + "\n  smaller: " + la + "\n  bigger : " + lb);
 		note_case(mix64(hash_str(s.lit), uint64_t(sel) * 7 + uint64_t(rep)));
 		return;
 	}
@@ -169,7 +174,7 @@ void op_cli(const Step& s) {
 		const TA& T = A;
 		size_t nl = out.find('\n'); if (nl == std::string::npos) { violation(P + ".cli-output-well-formed", site, "no index line: " + escape(out.substr(0, 200))); return; }
 		std::map<long, long> idx2state; std::string l1 = out.substr(0, nl), l2 = out.substr(nl + 1);
-		{ size_t p = 0; while (p < l1.size()) { size_t c = l1.find(": ", p), e = l1.find(", ", c == std::string::npos ? p : c); if (c == std::string::npos || e == std::string::npos) break; long i = atol(l1.substr(p, c - p).c_str()); std::string nm = l1.substr(c + 2, e - c - 2); if (nm.size() < 2 || nm[0] != 'q') { violation(P + ".cli-output-well-formed", site, "unexpected state name '" + escape(nm) + "'"); return; } idx2state[i] = atol(nm.c_str() + 1); p = e + 2; } }
+		{ size_t p = 0; while (p < l1.size()) { size_t c = l1.find(": ", p); if (c == std::string::npos) break; size_t e = l1.find(", ", c); if (e == std::string::npos) { e = l1.size(); while (e > c + 2 && (l1[e - 1] == ' ' || l1[e - 1] == ',')) --e; if (e <= c + 2) break; } long i = atol(l1.substr(p, c - p).c_str()); std::string nm = l1.substr(c + 2, e - c - 2); if (nm.size() < 2 || nm[0] != 'q') { violation(P + ".cli-output-well-formed", site, "unexpected state name '" + escape(nm) + "'"); return; } idx2state[i] = atol(nm.c_str() + 1); p = e + 2; } }
 		std::set<long> listed; for (auto& kv : idx2state) listed.insert(kv.second);
 		if (listed != T.states()) { violation(P + ".cli-sim-states", site, "`vata sim` lists other states than the automaton has\n  a: " + la + "\n  output: " + escape(out.substr(0, 300))); return; }
 		mdl::Rel got; bool bad = false;
